@@ -101,6 +101,8 @@ pub struct EvalOut {
     /// jobs blocked by a failure (C07's set B), as computed online
     pub blocked: BTreeSet<usize>,
     pub misuse_done: u32,
+    /// (job, upstream) -> the upstream's current output as reported by the engine when the job started
+    pub consumed_at_start: BTreeMap<(usize, usize), String>,
 }
 
 impl EvalOut {
@@ -255,6 +257,7 @@ pub fn normalise(msg: &str) -> String {
 
 struct RunInfo {
     job: usize,
+    injected: Option<Leave>,
     seq: u64,
     finish_time: u64,
     inputs: Vec<(usize, String, u64)>,
@@ -384,9 +387,11 @@ pub fn evaluate(sc_cfg: &Config, defs: &[Def], world: &mut World, plan: &EvalPla
         clock_end: world.clock,
         blocked: BTreeSet::new(),
         misuse_done: 0,
+        consumed_at_start: BTreeMap::new(),
     };
 
     let mut st = DriverState {
+        fail_started: &plan.fail_started,
         gv: &gv,
         live: &live,
         cfg: sc_cfg,
@@ -752,6 +757,7 @@ pub fn evaluate(sc_cfg: &Config, defs: &[Def], world: &mut World, plan: &EvalPla
 }
 
 struct DriverState<'a> {
+    fail_started: &'a BTreeMap<u32, Leave>,
     gv: &'a GraphView,
     live: &'a [bool],
     cfg: &'a Config,
@@ -825,6 +831,14 @@ impl<'a> DriverState<'a> {
         let gv = self.gv;
         // C02 (again at start)
         self.check_inputs(eng, out, j, "at-start");
+        if out.blocked.contains(&j) {
+            self.viol(
+                out,
+                "C07",
+                "blocked-job-started",
+                format!("{} ({:?}) could be started although a job it depends on has failed", gv.jobs[j].id, gv.jobs[j].kind),
+            );
+        }
         let r = eng.now_running(&gv.jobs[j].id);
         self.legal_result(out, "event_now_running", &r);
         if self.fatal {
@@ -854,8 +868,16 @@ impl<'a> DriverState<'a> {
         }
         self.seq += 1;
         self.clock += 1;
+        let ordinal = out.started.len() as u32;
+        // what each upstream's current output is at the moment the job starts = what it consumes
+        for (u, _) in gv.jobs[j].ups.iter() {
+            if let Some(x) = eng.job_output(&gv.jobs[*u].id) {
+                out.consumed_at_start.insert((j, *u), x);
+            }
+        }
         self.running.push(RunInfo {
             job: j,
+            injected: self.fail_started.get(&ordinal).copied(),
             seq: self.seq,
             finish_time: self.clock + dur,
             inputs,
@@ -902,7 +924,7 @@ impl<'a> DriverState<'a> {
         let j = info.job;
         let job = &gv.jobs[j];
         self.clock = (self.clock + 1).max(if plan.policy == Policy::PyRunner { info.finish_time } else { 0 });
-        let injected = plan.fail.get(&job.def).copied();
+        let injected = plan.fail.get(&job.def).copied().or(info.injected);
         if injected.is_some() || info.missing_input {
             let why = if injected.is_some() { FailWhy::Injected } else { FailWhy::MissingInput };
             if info.missing_input {
@@ -1342,6 +1364,37 @@ impl<'a> DriverState<'a> {
                 format!("is_finished() = {} but all jobs finished = {}", fin, all_finished),
             );
         }
+        for j in ready.iter() {
+            let sc = state_of.get(gv.jobs[*j].id.as_str()).map(|s| s.code).unwrap_or(99);
+            if sc != vs::ST_READY {
+                self.viol(
+                    out,
+                    "C17",
+                    "ready-set-holds-non-ready-job",
+                    format!("{} is reported ready to run but its state code is {}", gv.jobs[*j].id, sc),
+                );
+            }
+            if uf_q.contains(j) || failed_q.contains(j) {
+                self.viol(
+                    out,
+                    "C17",
+                    "ready-and-failed",
+                    format!("{} is reported both as ready to run and as (upstream-)failed", gv.jobs[*j].id),
+                );
+            }
+            // C02 holds for as long as the job is on offer, not only at the first offer
+            for (u, _) in gv.jobs[*j].ups.iter() {
+                let su = state_of.get(gv.jobs[*u].id.as_str()).map(|s| s.code).unwrap_or(99);
+                if !(is_success_code(su) || su == vs::ST_SKIPPED) && self.ready_prev.contains(j) {
+                    self.viol(
+                        out,
+                        "C02",
+                        "upstream-not-finished-ok-while-offered",
+                        format!("{} is still offered while upstream {} is in state code {}", gv.jobs[*j].id, gv.jobs[*u].id, su),
+                    );
+                }
+            }
+        }
         // ---- C05 progress
         if !fin && ready.is_empty() && running_q.is_empty() && running_sim.is_empty() {
             self.viol(out, "C05", "stall", "evaluation not finished, nothing ready, nothing running".into());
@@ -1367,6 +1420,17 @@ impl<'a> DriverState<'a> {
                 if !self.live[*j] {
                     self.viol(out, "C04", "dead-ephemeral-offered", format!("{} can be needed by nobody but was offered", gv.jobs[*j].id));
                 }
+            }
+        }
+        // C07: a job that depends on a failed job must not be (or stay) on offer
+        for j in ready.iter() {
+            if out.blocked.contains(j) && self.ready_prev.contains(j) {
+                self.viol(
+                    out,
+                    "C07",
+                    "blocked-job-still-offered",
+                    format!("{} ({:?}) is still offered although a job it depends on has failed", gv.jobs[*j].id, gv.jobs[*j].kind),
+                );
             }
         }
         // a job that left the ready set without being started
